@@ -47,9 +47,14 @@ RULE = ('class forests are enumerated exhaustively under a total deviation budge
         'declarations + qualifier attachments + non-standard override variants + 1 if superclass '
         'references and query names are written in upper case; the flavors of the qualifier '
         'types actually used range over {ToSubclass, Restricted} x {EnableOverride, '
-        'DisableOverride}; every root has a key property k. family "content": canonical creation '
+        'DisableOverride}; every root has a key property k. Creation paths: CreateClass; MOF '
+        '(compile_mof_string); ModifyClass (each class is created with a placeholder content - '
+        'property old, method oldm - and modified to its declaration while it is still a leaf). '
+        'family "content": canonical creation '
         'order, each (prefix, new class) is a case; family "orders": every linear extension of '
-        'the forest order, every class and every hierarchy query checked. A case is non-trivial '
+        'the forest order, every class and every hierarchy query checked (the GetClass flag matrix '
+        'is run in family "content" up to flags_matrix_budget, counting non-default flavors; the '
+        'EnumerateClasses flag matrix for the canonical creation order). A case is non-trivial '
         'if the server accepted every declaration and the reference model had no corner the '
         'statement is silent about (Restricted qualifier re-specified, DisableOverride violated, '
         'redeclaration without Override)')
@@ -79,14 +84,14 @@ BOUNDS = {
             {'classes': 4, 'depth': 3, 'fanout': 4, 'budget': 3, 'via': ['CreateClass'],
              'flags_matrix_budget': 2},
             {'classes': 4, 'depth': 3, 'fanout': 4, 'budget': 2, 'via': ['MOF', 'ModifyClass'],
-             'flags_matrix_budget': 1},
+             'flags_matrix_budget': 1, 'chunks': 4},
             {'classes': 2, 'depth': 1, 'fanout': 4, 'budget': 4, 'via': ['CreateClass'],
-             'flags_matrix_budget': 0},
+             'flags_matrix_budget': 0, 'chunks': 4},
             # one element followed down a chain with a larger budget
             {'classes': 3, 'depth': 2, 'fanout': 1, 'budget': 5, 'via': ['CreateClass', 'ModifyClass'],
-             'features': ['p'], 'qualifiers': ['Q1'], 'flags_matrix_budget': 0},
+             'features': ['p'], 'qualifiers': ['Q1'], 'flags_matrix_budget': 0, 'chunks': 2},
             {'classes': 3, 'depth': 2, 'fanout': 1, 'budget': 5, 'via': ['CreateClass', 'ModifyClass'],
-             'features': ['m'], 'qualifiers': ['Q1'], 'flags_matrix_budget': 0},
+             'features': ['m'], 'qualifiers': ['Q1'], 'flags_matrix_budget': 0, 'chunks': 2},
         ],
         'orders': [
             {'classes': 4, 'depth': 3, 'fanout': 4, 'budget': 1, 'via': _ALLVIA,
@@ -97,11 +102,11 @@ BOUNDS = {
     'thorough': {
         'content': [
             {'classes': 4, 'depth': 3, 'fanout': 4, 'budget': 4, 'via': ['CreateClass'],
-             'flags_matrix_budget': 3, 'chunks': 32},
+             'flags_matrix_budget': 3, 'chunks': 16},
             {'classes': 4, 'depth': 3, 'fanout': 4, 'budget': 3, 'via': ['MOF', 'ModifyClass'],
-             'flags_matrix_budget': 2, 'chunks': 16},
+             'flags_matrix_budget': 2, 'chunks': 8},
             {'classes': 5, 'depth': 4, 'fanout': 4, 'budget': 3, 'via': ['CreateClass'],
-             'flags_matrix_budget': 0, 'chunks': 16},
+             'flags_matrix_budget': 0, 'chunks': 8},
             {'classes': 6, 'depth': 5, 'fanout': 4, 'budget': 2, 'via': ['CreateClass'],
              'flags_matrix_budget': 0},
             {'classes': 4, 'depth': 3, 'fanout': 1, 'budget': 6, 'via': _ALLVIA,
@@ -111,9 +116,9 @@ BOUNDS = {
         ],
         'orders': [
             {'classes': 5, 'depth': 4, 'fanout': 4, 'budget': 1, 'via': _ALLVIA,
-             'creation_orders': 'all linear extensions', 'parts': 48},
+             'creation_orders': 'all linear extensions', 'parts': 32},
             {'classes': 6, 'depth': 5, 'fanout': 4, 'budget': 0, 'via': _ALLVIA,
-             'creation_orders': 'all linear extensions', 'parts': 12},
+             'creation_orders': 'all linear extensions', 'parts': 8},
         ],
         'flag_combinations': '3x3x3 x PropertyList in {None, [], [p], [P,zz]}',
     },
